@@ -2,7 +2,7 @@
 (***************************************************************************)
 (* code -> spec for C12.  A trace is one SCHEDULE that was forced on the   *)
 (* real executor for scenario IOEnv.VERIF_SCN: a sequence of               *)
-(*    step | deliver(s) | retry | finish                                   *)
+(*    step | poll | deliver(s) | retry | finish | recover                  *)
 (* with the projected real state logged after each action.  Every event    *)
 (* must be the corresponding Epr action AND lead to the logged state; the  *)
 (* Epr invariants are evaluated in every state of every trace.             *)
@@ -44,6 +44,7 @@ Diff(a, b) ==
 
 TInit == Init /\ id \in DOMAIN Traces /\ k = 0 /\ verdict = "running"
 Act(ev) == CASE ev.a = "step"    -> Step
+             [] ev.a = "poll"    -> Poll
              [] ev.a = "finish"  -> Finish
              [] ev.a = "recover" -> Recover
              [] ev.a = "retry"   -> RunHandler(pending) /\ UNCHANGED <<net, nreq, seqc, sub>>
